@@ -19,6 +19,7 @@ LOOP = "libs/pika/thread_pools/include/pika/thread_pools/scheduling_loop.hpp"
 STS = "libs/pika/threading_base/src/set_thread_state.cpp"
 TQ = "libs/pika/schedulers/include/pika/schedulers/thread_queue.hpp"
 STACKFUL = "libs/pika/threading_base/include/pika/threading_base/thread_data_stackful.hpp"
+STACKLESS = "libs/pika/threading_base/include/pika/threading_base/thread_data_stackless.hpp"
 
 
 # ---------------------------------------------------------------------------------------------------------------
@@ -119,6 +120,52 @@ class FrameLift(Lift):
         loops = {k: (re.sub(r"@IF_ASSIGNED\((\w+)\)", frame, v) if isinstance(v, str) else v) for k, v in self.loops.items()}
         r["text"], r["nloops"] = splice_loops(body, loops)
         return r
+
+
+CENSUS_RX = (r"current_state_\s*(?:\.store|\.compare_exchange\w*|\.exchange|\(|=[^=])|[>.]set_state_tagged\(|[>.:]restore_state\(|"
+             r"[>.]set_state\(|\bset_state_ex\(")
+
+
+class CensusLift(Lift):
+    """A-CLOSED support (DESIGN 3.4): greps every *.hpp / *.cpp under libs/ for textual write accesses to current_state_ and for
+    calls of the writer members (set_state, set_state_tagged, restore_state, set_state_ex), and compares the per-file counts
+    with the census the units were written against.  A new / vanished site is an extraction failure (exit 2, 'unverified
+    mutator').  The lifted text is a C comment listing the sites."""
+
+    def __init__(self, expected):
+        Lift.__init__(self, "libs", "census")
+        self.expected = expected
+
+    def run(self):
+        import os
+        from vx import lift as L
+        found, lines = {}, []
+        root = os.path.join(L.REPO, "libs")
+        for d, _, fs in os.walk(root):
+            for f in fs:
+                if not f.endswith((".hpp", ".cpp")) or f == "combined_tagged_state.hpp":
+                    continue
+                path = os.path.join(d, f)
+                try:
+                    txt = open(path, encoding="utf-8", errors="replace").read()
+                except OSError:
+                    continue
+                if "state" not in txt:
+                    continue
+                rel = os.path.relpath(path, L.REPO)
+                for i, ln in enumerate(txt.split("\n")):
+                    st = ln.strip()
+                    if st.startswith("//") or st.startswith("*") or st.startswith("/*"):
+                        continue
+                    if re.search(CENSUS_RX, ln):
+                        found[rel] = found.get(rel, 0) + 1
+                        lines.append("%s:%d: %s" % (rel, i + 1, " ".join(st.split())[:110]))
+        if found != self.expected:
+            diff = sorted(set(found.items()) ^ set(self.expected.items()))
+            raise LiftError("census of current_state_ write sites changed (unverified mutator?): %r" % diff)
+        text = "/* census of write sites of thread_data::current_state_ (taken on this run):\n" + \
+               "\n".join(" *   " + l.replace("*/", "* /") for l in sorted(lines)) + "\n */\n"
+        return {"text": text, "line": 1, "file": "libs", "raw": text, "nloops": 0, "header": ""}
 
 
 class Call0(Call):
@@ -459,12 +506,23 @@ UNITS += [
 # ---------------------------------------------------------------------------------------------------------------
 # L1: lemma harnesses over the U2/U3 contracts
 LAYOUT = {k: CTS_LIFTS[k] for k in ("enum_schedule", "enum_restart", "consts")}
+# census of Mut(current_state_) the units were written against: file -> number of matching lines (see CENSUS_NOTES in META)
+CENSUS = {
+    TD: 6,                      # 5 compare_exchange_strong (set_state, set_state_tagged, restore_state x2, set_state_ex) + set_state_ex's signature
+    "libs/pika/threading_base/src/thread_data.cpp": 2,                          # constructor init, rebind_base store
+    STS: 1,                     # set_thread_state: restore_state(new_state, new_state_ex, previous_state)
+    STACKFUL: 1, STACKLESS: 1,  # call(): set_state_ex(signaled)
+    LOOP: 3,                    # switch_status ctor / store_state, pending_boost set_state(pending)
+    TQ: 1,                      # abort_all_suspended_threads
+    "libs/pika/schedulers/include/pika/schedulers/queue_holder_thread.hpp": 1,  # abort_all_suspended_threads (ends in `throw`)
+}
 UNITS += [
     Unit("lemma.rely", unit_template("lemma.c", ["U_RELY"]), defines=["U_RELY"], kind="lemma", lifts=dict(LAYOUT), min_obligations=8,
          funcs=["(lemma over the guarantee / rely relations of specs/C01/word.h)"],
          doc="rely/guarantee side conditions on the full 64-bit domain: STEP => RELY_GEN, STEP_OTHER => RELY_OWNER, relies reflexive "
              "and transitive, WF/A-TAG stable, the runner's switch-in and store are STEPs"),
-    Unit("lemma.ownership", unit_template("lemma.c", ["U_OWNERSHIP"]), defines=["U_OWNERSHIP"], kind="lemma", lifts=dict(LAYOUT),
+    Unit("lemma.ownership", unit_template("lemma.c", ["U_OWNERSHIP"]), defines=["U_OWNERSHIP"], kind="lemma",
+         lifts=dict(LAYOUT, census=CensusLift(CENSUS)),
          min_obligations=5, funcs=["(lemma over the contracts of word.set_state_tagged, sw.ctor, sw.store_state)"],
          doc="L1: of two set_state_tagged(active, prev = (pending, e, t)) at most one succeeds; while the winner runs the word is "
              "untouched and no switch-in from a pending prev succeeds; the phase publishes tag + 2, so a stale prev never succeeds later"),
@@ -528,8 +586,9 @@ ABORT_RULES = [
 ]
 RUNNER_RULES = [
     NS, SCHED_ENUM, RESTART_ENUM,
+    Sub(r"\bthis->thread_data::", "", None),                                    # qualified call of the base-class member
     DropStmt(r"\bPIKA_ASSERT(?=\(this == coroutine_)", 1),                      # identity of the coroutine object (C12)
-    DropStmt(r"pika::execution::this_thread::detail::reset_agent\s+ctx", 1),    # agent context switch (C12)
+    DropStmt(r"pika::execution::this_thread::detail::reset_agent\s+ctx", None), # agent context switch (C12; stackful only)
     Call0(r"(?<![\w.>:])get_state", "get_state(self)"),
 ] + VALUE_ACC + [
     Call0(r"(?<![\w.>:])set_state_ex", "set_state_ex(self, {0})"),
@@ -575,6 +634,10 @@ UNITS += [
                [STACKFUL + ": thread_data_stackful::call", TD + ": thread_data::set_state_ex, get_state (inlined)"],
                "S+T: the runner's own step inside its phase keeps (active, tag) and only sets state_ex = signaled; the coroutine (task "
                "body) is entered exactly once per call, with the previous state_ex"),
+    other_unit("other.runner_set_state_ex.stackless", "U_RUNNER", "stackful_call", "stackful_call_body",
+               Lift(STACKLESS, r"stackless_coroutine_type::result_type call\(\)", rules=RUNNER_RULES),
+               [STACKLESS + ": thread_data_stackless::call", TD + ": thread_data::set_state_ex, get_state (inlined)"],
+               "S+T: same contract for the stackless variant of call()"),
 ]
 
 
@@ -645,9 +708,116 @@ UNITS += [
              "leftover: re-queued once, not run; on every path the reference in `thrd` is consumed exactly once"),
 ]
 
+
+# ---------------------------------------------------------------------------------------------------------------
+# U5 (slice): pending-queue hops of thread_queue
+Q_RULES = [
+    NS,
+    Sub(r"\+\+(\w+_count_)\.data_", r"atomic_inc(self, &self->\1)", None),                 # atomic pre-increment / pre-decrement
+    Sub(r"--(\w+_count_)\.data_", r"atomic_dec(self, &self->\1)", None),
+    Sub(r"\b(\w+_count_)\.data_\.load\([^()]*\)", r"atomic_load_i64(self, &self->\1)", None),
+    Call0(r"\bwork_items_\.push", "wi_push(self, {0}, {1})"),
+    Call0(r"\bwork_items_\.pop", "wi_pop(self, &{0}, {1})"),
+    Members(["parameters_"], optional=["parameters_"]),
+]
+UNITS += [
+    Unit("queue.schedule_thread", unit_template("queue.c", ["U_SCHEDULE_THREAD"]), defines=["U_SCHEDULE_THREAD"], enforce="schedule_thread",
+         lifts={"schedule_thread_body": Lift(TQ, r"\bvoid schedule_thread\(threads::detail::thread_id_ref_type thrd, bool other_end = false\)",
+                                             rules=Q_RULES + [Method("detach", "tid_detach(&{recv})")])},
+         funcs=[TQ + ": thread_queue::schedule_thread"], min_obligations=15,
+         doc="I+T: exactly one insertion into work_items_, of exactly the thread passed in, never a thread that is already queued; "
+             "work_items_count_ is incremented BEFORE the insertion (counter >= entries at every instant), net +1"),
+    Unit("queue.get_next_thread", unit_template("queue.c", ["U_GET_NEXT_THREAD"]), defines=["U_GET_NEXT_THREAD"], enforce="get_next_thread",
+         lifts={"get_next_thread_body": Lift(TQ, r"\bbool get_next_thread\(threads::detail::thread_id_ref_type& thrd, bool allow_stealing = false,",
+                                             rules=Q_RULES + [Call0(r"\bthrd\.reset", "tid_reset(thrd, {0}, {1})")])},
+         funcs=[TQ + ": thread_queue::get_next_thread"], min_obligations=15,
+         doc="I+T: returns true IFF it removed one entry, and hands out exactly that entry; work_items_count_ is decremented only "
+             "AFTER a successful removal (counter >= entries at every instant), net -1 iff removed"),
+]
+
 META = {
-    "explanation": "",
-    "trusted_base": [],
-    "assumptions": [],
-    "not_decided": [],
+    "explanation":
+        "C01 is decided on the thread state word thread_data::current_state_ (schedule state, restart state, 48-bit tag in one "
+        "atomic) and on the scheduling-loop iteration that runs one task. "
+        "U1 cts.* (F, full domain): pack/extract/set of combined_tagged_state are mutually inverse on every enumerator pair and every "
+        "48-bit tag; enumerator lists and shift/mask constants are lifted. "
+        "U2 word.* (S): every member of thread_data that writes the word makes exactly the step its contract names (state as requested, "
+        "tag +1 iff the state changes, state_ex only if asked; set_state_tagged true IFF the word equalled prev at its CAS). "
+        "U3 sw.* (S): switch_status: is_valid() <=> this worker's CAS to active succeeded; store_state succeeds <=> the word still is this "
+        "worker's and publishes (returned state, ex, tag+2 overall); the destructor restores only if valid and not stored. "
+        "L1 lemma.* + other.*: every OTHER writer in the census (set_thread_state -- set_active_state writes only through it --, "
+        "abort_all_suspended_threads) asserts at its CAS that it neither starts from nor creates an active word (STEP_OTHER); the "
+        "runner's own set_state_ex keeps (active, tag); the lemma harnesses prove guarantee => rely, reflexivity/transitivity, 'of two "
+        "switch-ins from the same (pending, e, t) at most one succeeds', 'no switch-in from a pending prev succeeds while the word is "
+        "active' and 'a stale prev never succeeds after the phase'. "
+        "U4 loop.run_one (T over S, real switch_status/thread_data bodies inlined): the task body is entered at most once per "
+        "iteration and only behind this worker's own successful pending->active switch of the word it read; the post-phase decision is "
+        "exactly one of requeue-last / set_state(pending)+{keep as next, requeue boost} / nothing (suspended) / drop (terminated); an "
+        "active leftover is re-queued once and not run; failed switch or refused store: continue without queue operation; on every "
+        "path the reference held in `thrd` is consumed exactly once. "
+        "U5 (slice) queue.*: thread_queue::schedule_thread / get_next_thread move exactly one entry and keep work_items_count_ >= "
+        "number of entries at every instant. "
+        "The 'for all schedules' part of the property is NOT model checked: it follows from the per-step obligations above by the "
+        "rely/guarantee argument plus the history induction of DESIGN 3.4 (paper argument; assumptions history-induction, A-SC, A-CLOSED). "
+        "Two defects were found by these units on the pinned tree and have since been repaired in /repo (see known_findings): "
+        "thread_data::set_state wrote a stale state_ex on CAS retry (word.set_state), and thread_queue::abort_all_suspended_threads "
+        "overwrote words that were no longer suspended, including the runner's active word (other.abort_all_suspended).",
+    "trusted_base": [
+        "specs/C01/word.h interfere(): VX_ASSUME(RELY(old, new)) -- before every atomic access of the call under verification the "
+        "environment replaces the word by any value allowed by the unit's rely: RELY_GEN (well formed, A-TAG, tags never decrease, a "
+        "different schedule state means a larger tag); other.c / loop.c additionally A-REAL; sw.store_state.owner and other.runner_* use "
+        "RELY_OWNER (nobody else moves an active word), which lemma.rely + the STEP_OTHER assertions of other.* justify",
+        "specs/C01/word.h atomic_load / atomic_cas_strong: std::atomic<thread_state> is an indivisible word (A-SC); "
+        "compare_exchange_strong has no spurious failure; named std::memory_order arguments are dropped by rule",
+        "specs/C01/sw.h get_thread_id_data: thread ids are opaque tokens; only ONE thread object (the victim g_td) is modelled, another id "
+        "(g_other_tid) stands for every other thread",
+        "specs/C01/loop.c task_body: T stub for the coroutine call `(*thrdptr)(context_storage)`: VX_ASSUME(S_ENUM(result.first)) -- a "
+        "thread function returns an enumerator of thread_schedule_state; it performs the runner's own set_state_ex(signaled) step "
+        "(proved as other.runner_set_state_ex) directly on the word; it never names the running task itself as next thread",
+        "specs/C01/loop.c sp_* (SchedulingPolicy::wait_or_add_new / schedule_thread_last / schedule_thread / do_some_work), "
+        "td_get_scheduler_base / td_get_priority, vx_move_tid / tid_assign / tid_release (std::move empties the source id, assignment and "
+        "scope exit drop the reference held): T stubs with ghost counters",
+        "specs/C01/loop.c ghost_archive / set_state_after_phase: ghost-only copy of the step log before the inlined CAS loop of "
+        "set_state (whose loop contract frames the whole log)",
+        "specs/C01/other.c sb_schedule_thread / sb_do_some_work / vx_create_work_set_active_state / vx_throws_if / vx_ec_success / "
+        "vx_yield_k / coroutine_call / tq_schedule_thread: T stubs; PIKA_THROWS_IF is a counter (throw-vs-ec is C16/C19), the message "
+        "formatting and the thread_init_data of the deferred set_active_state task are dropped by rule",
+        "specs/C01/queue.c q_interfere: VX_ASSUME(QRANGE && QINV) -- the other workers keep the ledger invariant counter >= entries, may "
+        "remove the victim from the queue but cannot insert it while the caller holds its reference; wi_push / wi_pop: the lock-free "
+        "container is a ghost count + victim membership bit (push always succeeds, pop may fail spuriously); ghost counters bounded by 10^9",
+        "spec.py helper rules defined locally: EnumClass (scoped enum -> typedef + enumerators + IS_ENUMERATOR disjunction), ConstDefs, "
+        "CtorLift (mem-initialiser list -> assignments), FrameLift (@IF_ASSIGNED: syntactic loop-frame inference for one identifier), "
+        "Method (receiver.method(args), overloads / default arguments resolved by argument count), WrapIteration (fragment -> do { } "
+        "while (0)), CensusLift (grep of write sites), unit_template (per-unit specialisation of a master template into specs/C01/gen/)",
+    ],
+    "assumptions": [
+        "A-TAG: a thread object's tag stays at least 4 below 2^48 (rely) / 1 below at each own step: `tag() + 1` never leaves the 48-bit "
+        "field. At 2^48 - 1 the increment spills into the state_ex byte (documented by unit cts.tag_wrap; pack_state's third PIKA_ASSERT "
+        "tests `state` instead of `tag`, so debug builds do not notice)",
+        "A-REAL: current_state_ only ever holds the five real states active / pending / suspended / terminated / pending_boost "
+        "(set_thread_state's own PIKA_ASSERT_MSG(false) in the default case says so); used by other.* and loop.run_one",
+        "A-LIFE: the two non-CAS writers of the census -- the thread_data constructor and rebind_base's store, which reset the tag to 0 -- "
+        "run only on thread objects that no queue, map entry or worker references (creation / recycling; C12). They are not under "
+        "contract here; a stale reference across recycling would break the tag argument",
+        "A-CLOSED: Mut(current_state_) is the census taken by CensusLift on every run (16 lines in 8 files; a change is exit 2). Not under "
+        "contract: queue_holder_thread::abort_all_suspended_threads (shared_priority_queue_scheduler; still has the check-then-set_state "
+        "pattern repaired in thread_queue, and ends in `throw`)",
+        "for all schedules: by rely/guarantee + the history induction of DESIGN 3.4 (paper argument) over the machine-checked per-step "
+        "obligations; the lemma harnesses cover the two- and three-step instances the property sentence names",
+        "restore_state(new, old) is called with an `old` that the word held earlier (precondition W_TAG(word) >= W_TAG(old); its only "
+        "caller, switch_status::store_state, passes the word it wrote itself) -- without it the tag of the new word is not determined",
+        "loop.run_one: one iteration, entered with a non-empty `thrd` of the victim and an empty `next_thrd`; busy_loop_count < 10^9; "
+        "num_thread <= 32767 (the int16 hint); reference accounting counts moves, so a refactor that copies the id and lets the copy die "
+        "would be flagged although C++ reference counting makes it harmless",
+    ],
+    "not_decided": [
+        "that the hops COMPOSE over several words and containers (history induction, paper); liveness (a queued task is eventually run: C02)",
+        "the remaining U5 hops: thread_queue::create_thread, add_new, destroy_thread, cleanup_terminated_locked, recycle_thread / "
+        "create_thread_object and the local_priority_queue_scheduler wrappers (not done for lack of time). Observation while reading: "
+        "destroy_thread pushes to terminated_items_ BEFORE ++terminated_items_count_, i.e. that counter transiently under-approximates, "
+        "the opposite discipline of work_items_count_",
+        "the other scheduling policies (local_queue, shared_priority, thread_queue_mc, queue_holder_*), the lock-free containers "
+        "themselves (C17 covers contiguous_index_queue only), context switching / stacks (C12), weak-memory effects (A-SC)",
+        "set_active_state (only its call of set_thread_state matters for the word), create_work / create_thread paths",
+    ],
 }
